@@ -147,9 +147,43 @@ TVamana ==
      THEN HitsExact(S, U, pts, E.p, E.vec, E.limit, E.w4, E.filter, E.hits, E.tol)
      ELSE HitsSound(S, U, pts, E.p, E.vec, E.limit, E.w4, E.filter, E.hits, E.tol)
 
+\* the same graph search on a warm and on a cold instance of the same committed
+\* data (C08): same distances; the ids may differ only among equal distances
+TVamanaPair ==
+  /\ IsEvent("VamanaPair") /\ Obs
+  /\ Len(E.a) = Len(E.b)
+  /\ \A k \in DOMAIN E.a : E.a[k].d = E.b[k].d
+  /\ LET A == {E.a[k].id : k \in DOMAIN E.a}
+         B == {E.b[k].id : k \in DOMAIN E.b}
+         DA(i) == E.a[CHOOSE k \in DOMAIN E.a : E.a[k].id = i].d
+         DB(i) == E.b[CHOOSE k \in DOMAIN E.b : E.b[k].id = i].d
+     IN  /\ \A i \in A \ B : \E j \in B \ A : DA(i) = DB(j)
+         /\ \A j \in B \ A : \E i \in A \ B : DA(i) = DB(j)
+  /\ HitsSound(S, U, pts, E.p, E.vec, E.limit, 4, [k |-> "all"], [k \in DOMAIN E.a |-> [id |-> E.a[k].id, d |-> E.a[k].d, h4 |-> 0 - 4 * E.a[k].d]], 0)
+
 TText ==
   /\ IsEvent("Text") /\ Obs
   /\ TextOK(S, U, pts, E.p, AsSet(E.terms), E.op, E.limit, E.w4, E.filter, E.hits, E.tol)
+
+\* persisted similarity graph of property E.p (C10): one node and one vector
+\* per live point that has the field plus the entry node 1; edges lead to
+\* existing nodes other than their source; out-degree <= R except for the
+\* entry node; the recorded maximum bounds all ids in use
+TGraph ==
+  /\ IsEvent("Graph") /\ Obs
+  /\ LET want  == {1} \cup {nodeOf[i] : i \in {j \in DOMAIN pts : HasIx(S, pts[j], E.p)}}
+         ids   == [k \in DOMAIN E.nodes |-> E.nodes[k][1]]
+         nodes == AsSet(ids)
+     IN  /\ NoDup(ids) /\ NoDup(E.vecs)
+         \* (an index that was never written has no entry node yet)
+         /\ (nodes = want \/ (want = {1} /\ nodes = {}))
+         /\ AsSet(E.vecs) = nodes
+         /\ \A k \in DOMAIN E.nodes :
+               LET n == E.nodes[k][1]  es == E.nodes[k][2]
+               IN  /\ AsSet(es) \subseteq nodes
+                   /\ n \notin AsSet(es)
+                   /\ (n # 1 => Len(es) <= E.R)
+         /\ \A n \in nodes : n <= Max2(E.max, 1)
 
 \* environment steps with no effect on the abstract state (reopen, evict,
 \* switch to a cold copy): the model says nothing may change
@@ -157,7 +191,7 @@ TQuiet == IsEvent("Quiet") /\ Obs
 
 TraceNext ==
   \/ TReset \/ TFault \/ TInsert \/ TUpdate \/ TDelete
-  \/ TCount \/ TGet \/ TFilter \/ TFlat \/ TVamana \/ TText \/ TQuiet
+  \/ TCount \/ TGet \/ TFilter \/ TFlat \/ TVamana \/ TVamanaPair \/ TText \/ TGraph \/ TQuiet
 
 TraceSpec == TraceInit /\ [][TraceNext]_vars
 
